@@ -867,11 +867,70 @@ def is_nontrivial(case, ex):
                                                                        or any(p.get("default") for p in case["params"]))
 
 
-EXHAUSTIVE_NOTE = ""
+EXHAUSTIVE_NOTE = ("every signature of 1-3 parameters over 15 parameter shapes (5 kinds; int annotation / none; default / "
+                   "none; one aliased and one case-insensitive shape; private names) that Python's syntax admits, x every "
+                   "call with 0..n+1 positional values and every subset of {each keyword-capable name (own spelling or alias), "
+                   "a positional-only name, one unknown key}, x {field-first, data-first}")
+
+SHAPES = {
+    "po": [{"name": "a", "ann": "int"}, {"name": "a", "ann": "int", "default": {"v": 2}}, {"name": "_x"},
+           {"name": "_x", "default": {"v": 9}}],
+    "pk": [{"name": "b", "ann": "int"}, {"name": "b", "ann": "int", "default": {"v": 2}},
+           {"name": "b", "ann": "int", "default": {"v": 2}, "alias": "B1"},
+           {"name": "d", "ann": "int", "default": {"v": 4}, "ci": True}, {"name": "_y", "default": {"v": 9}}],
+    "vp": [{"name": "r", "ann": "int"}, {"name": "r"}],
+    "ko": [{"name": "c", "ann": "int"}, {"name": "c", "default": {"v": 2}}, {"name": "_z", "default": {"v": 9}}],
+    "vk": [{"name": "k", "ann": "int"}],
+}
+
+
+def exhaustive_sigs(maxp=3):
+    order = ["po", "pk", "vp", "ko", "vk"]
+    out = []
+
+    def rec(i, acc):
+        if acc:
+            out.append(list(acc))
+        if len(acc) >= maxp:
+            return
+        for j in range(i, len(order)):
+            k = order[j]
+            if k in ("vp", "vk") and any(p["kind"] == k for p in acc):
+                continue
+            for sh in SHAPES[k]:
+                if any(p["name"] == sh["name"] for p in acc):
+                    continue
+                p = dict(sh, kind=k)
+                # Python's syntax: no positional parameter without default after one with a default
+                if k in ("po", "pk") and not p.get("default") and any(q.get("default") for q in acc if q["kind"] in ("po", "pk")):
+                    continue
+                rec(j, acc + [p])
+    rec(0, [])
+    return out
 
 
 def exhaustive_cases():
-    return []
+    cases = []
+    for params in exhaustive_sigs():
+        npos = sum(p["kind"] in ("po", "pk") for p in params)
+        has_vp = any(p["kind"] == "vp" for p in params)
+        keys = []
+        for p in params:
+            if p["kind"] in ("pk", "ko"):
+                keys.append(p.get("alias") or (p["name"].upper() if p.get("ci") else p["name"]))
+            elif p["kind"] == "po" and any(q["kind"] == "vk" for q in params):
+                keys.append(p["name"])
+        keys.append("zz")
+        for n in range(0, npos + (2 if has_vp else 1) + 1):
+            for first_bad in ((False, True) if n else (False,)):
+                args = [enc("x" if (first_bad and i == 0) else str(3 + i)) for i in range(n)]
+                for mask in range(1 << len(keys)):
+                    kwargs = [[k, enc(7 + j)] for j, k in enumerate(keys) if mask >> j & 1]
+                    for dfs in (False, True):
+                        cases.append({"kind": "bind", "params": params, "ctx": "func", "wrapper": "sync", "eager": False,
+                                      "options": {"data_first_search": dfs}, "retval": {"v": 1}, "args": args,
+                                      "kwargs": kwargs})
+    return cases
 
 
 class C08(Check):
@@ -880,7 +939,7 @@ class C08(Check):
     driver = "C08"
     impl = "harness.c08:impl"
     case_timeout = 20.0
-    budget = {"quick": 3000, "thorough": 60000}
+    budget = {"quick": 3000, "thorough": 40000}
     search_budget = {"quick": 4000, "thorough": 40000}
     rule = ("random declarations (0-5 parameters over the five kinds; int/str annotations; defaults; Param(alias, alias_from, "
             "case_insensitive); private `_x` names) in 9 class contexts x 4 wrapper kinds x eager/lazy x 11 Options, each with a "
